@@ -60,6 +60,10 @@ CLAIMED = {
          "stateless model checking with a freeze-the-world oracle on a virtual clock: every wait state x entry point x cancel/deadline x instant x schedules up to a deviation bound",
          "The client is scripted into each wait state (ZooKeeper silent, meta silent, probe unanswered, retry back-off, server silent after the request, re-establishment with meta silent, lookup back-off; plus the region client's busy send queue on tier R); through get, put, batch with shared context, batch with one call's own context, and scanner; the context is cancelled (or its virtual deadline expires) at 0 / 20 ms / 3 s / 100 s and from that instant the environment answers nothing. Oracle: the API call returns with a context error no later than 1 s of virtual time afterwards; a batch returns with the affected call marked failed and the others untouched.",
          "Virtual time; tier L for all states but the send queue; deviation bound 1 (2 thorough).", "DESIGN.md §4 C13"),
+ "C17": ("model_checking",
+         "stateless model checking on a virtual clock: persistent-failure scripts x entry points; attempt times stamped by the simulated servers against the literal back-off table; early timer firing as counted deviations; step horizon = hot loop",
+         "Seven persistent failures (retry-later forever, server passes the probe but drops every request, region never online, meta retry-later, meta dropping requests, ZooKeeper errors, dial refused) plus two mixed two-server batches, through single get / batch of one / batch of two, observed for 10 virtual minutes. Under the default clock the retry-later loop must equal 16 ms doubling to 8.192 s then +5 s to 33.192 s; every other persisting loop (user call, probe, lookup, ZooKeeper) must be >= the table with at most two immediate retries for connection-level failures; with early timer firing only the lower bound applies. The wait function is stepped 30 times against the table.",
+         "Virtual clock; tier L; establishment/lookup loops are judged where they are the persisting loop.", "DESIGN.md §4 C17"),
  "C08": ("model_checking",
          "explicit-state breadth-first search over the real location cache, every transition executed on the implementation and judged against an interval model",
          "All 1683 reachable states of a universe of every interval over 3 boundary points x 2 ids (plus a prefix-named table) with put/del of every region as transitions (87k per configuration), repeated with 0..130 filler regions to move entries across B-tree pages; invariant (no two cached regions of a table intersect) in every state, transition relation (evict-all-older / unchanged) on every edge, dead marks, and a differential rebuild from the canonical state.",
@@ -70,7 +74,7 @@ CLAIMED = {
          "Every ordered pair of ~2.6k (quick) / ~10k (thorough) well-formed region names and every triple of a 160-name subset is compared with the real comparator and with a component-wise (table,start,id) oracle; search keys 'table,key,:' are compared against every name. Exhaustive within the stated alphabet and key length, which is where comparator mistakes live (bytes around ',' and unequal lengths).",
          "Scope bound: start keys <=2/<=3 bytes over {00,'+',',','-','a',ff}; well-formed names only.", "DESIGN.md §4 C16"),
 }
-FIX_COMMITS = ["0da2129", "62252c5", "effb93f", "0cef440", "27c75df", "f573f90", "137cea9", "fa68402", "74e6ab5", "ffdcfd8", "dc24a9a", "6fcb5bf", "0fa34d5", "6c1c1ad"]
+FIX_COMMITS = ["0da2129", "62252c5", "effb93f", "0cef440", "27c75df", "f573f90", "137cea9", "fa68402", "74e6ab5", "ffdcfd8", "dc24a9a", "6fcb5bf", "0fa34d5", "6c1c1ad", "7f1a30c"]
 NA_REASONS = {}
 PENDING_REASON = "check under construction in this revision (planned: see DESIGN.md §4); not claimed until its check is committed"
 
